@@ -130,13 +130,16 @@ type scenario struct {
 	// un-instrumented windows) and users run their operations in tight batches
 	Stress bool `json:"stress"`
 	// KeepQueueOpen (pool): SetIsJobQueueClosedWhenClose(false) — Close() closes only the pool
-	KeepQueueOpen bool      `json:"keepQueueOpen"`
-	Plan          vlib.Plan `json:"plan"`
+	KeepQueueOpen bool `json:"keepQueueOpen"`
+	// QueueFirst (pool): the owner closes the job queue itself while the pool is still live, a moment later
+	// the pool; idle workers meet a closed queue: no job exists, so nothing may reach the panic handler
+	QueueFirst bool      `json:"queueFirst"`
+	Plan       vlib.Plan `json:"plan"`
 }
 
 func (s scenario) String() string {
 	var sb strings.Builder
-	fmt.Fprintf(&sb, "%s cap=%d iters=%d after=%d closeAfter=%d stress=%v keepQueueOpen=%v", kindNames[s.Kind], s.Cap, s.Iters, s.After, s.CloseAfter, s.Stress, s.KeepQueueOpen)
+	fmt.Fprintf(&sb, "%s cap=%d iters=%d after=%d closeAfter=%d stress=%v keepQueueOpen=%v queueFirst=%v", kindNames[s.Kind], s.Cap, s.Iters, s.After, s.CloseAfter, s.Stress, s.KeepQueueOpen, s.QueueFirst)
 	if s.Directed >= 0 {
 		fmt.Fprintf(&sb, " directed=%s@%s", opNames[s.Directed], windowPoint(s.Kind, s.Directed))
 	} else if s.Directed == -2 {
@@ -300,7 +303,10 @@ func runScenario(s scenario) result {
 		p := worker.NewDefaultWorkerPool(q, nil)
 		sched.Track(q)
 		sched.Track(p)
-		if s.KeepQueueOpen {
+		if s.QueueFirst {
+			// the owner closes the queue itself (once): the pool must not close it again
+			p.SetIsJobQueueClosedWhenClose(false)
+		} else if s.KeepQueueOpen {
 			p.SetIsJobQueueClosedWhenClose(false)
 			defer q.Close()
 		}
@@ -324,6 +330,13 @@ func runScenario(s scenario) result {
 			}
 		}
 		closeIt = p.Close
+		if s.QueueFirst {
+			closeIt = func() {
+				q.Close()
+				time.Sleep(300 * time.Microsecond)
+				p.Close()
+			}
+		}
 		isClosed = p.IsClosed
 	case kCor:
 		// the "close" is the completion of the target coroutine after CloseAfter served requests
@@ -499,6 +512,7 @@ func genScenario(t *rapid.T, directedOnly bool) scenario {
 	s.CloseAfter = rapid.IntRange(0, s.Iters*nu).Draw(t, "closeAfter")
 	s.Cap = rapid.SampledFrom([]int{0, 1, 4}).Draw(t, "cap")
 	s.KeepQueueOpen = s.Kind == kPool && rapid.IntRange(0, 2).Draw(t, "keepQueueOpen") == 0
+	s.QueueFirst = s.Kind == kPool && rapid.IntRange(0, 2).Draw(t, "queueFirst") == 0
 	s.Directed = -1
 	if directedOnly || rapid.Bool().Draw(t, "directed") {
 		cands := []int{}
@@ -557,7 +571,7 @@ func TestDirected(t *testing.T) {
 						users = append(users, []int{opsOf(kind)[u%len(opsOf(kind))]})
 					}
 				}
-				s := scenario{Kind: kind, Users: users, Iters: 5 + rep, After: 2, CloseAfter: rep % 4, Directed: op, Cap: []int{0, 1, 4}[rep%3], KeepQueueOpen: kind == kPool && rep%2 == 1}
+				s := scenario{Kind: kind, Users: users, Iters: 5 + rep, After: 2, CloseAfter: rep % 4, Directed: op, Cap: []int{0, 1, 4}[rep%3], KeepQueueOpen: kind == kPool && rep%2 == 1, QueueFirst: kind == kPool && rep%3 == 2}
 				vlib.S().Eval("directed")
 				res := runScenario(s)
 				if res.windowEntered {
